@@ -118,6 +118,7 @@ structure Inv (c : Cfg) (st : State) : Prop where
   codes : st.codeSet = st.columns.map (·.code)
   align : st.alignment = alignOf (st.columns.map (fun r => (⟨r.code, r.size, r.align, false⟩ : Item))) 1
   funcs : Tiles 0 st.funcRecs st.columns.length
+  count_le : st.columns.length ≤ c.maxColumns
 
 theorem init_inv (c : Cfg) : Inv c (init c) :=
   { param_le := Nat.zero_le _
@@ -126,7 +127,8 @@ theorem init_inv (c : Cfg) : Inv c (init c) :=
     looks := by intro r hr; cases hr
     codes := rfl
     align := rfl
-    funcs := rfl }
+    funcs := rfl
+    count_le := Nat.zero_le _ }
 
 /-- what one attempt of the retry loop establishes -/
 theorem fillAddends_spec (c : Cfg) (st : State) (items : List Item) (param : Nat)
@@ -163,10 +165,14 @@ theorem tryParams_spec (c : Cfg) (st : State) (items : List Item)
     ∀ n p, p + n ≤ Extracted.colMaxCodeParam + 1 →
       tryParams c st items n p ≠ .fuel ∧
       (∀ param a off al, tryParams c st items n p = .found param a off al →
-        p ≤ param ∧ param ≤ Extracted.colMaxCodeParam ∧ fillAddends c st items param = (.ok a, off, al)) := by
+        p ≤ param ∧ param ≤ Extracted.colMaxCodeParam ∧ fillAddends c st items param = (.ok a, off, al)) ∧
+      (tryParams c st items n p = .none →
+        ∀ param, p ≤ param → param < p + n → (fillAddends c st items param).1 = .bad) := by
   intro n
   induction n with
-  | zero => intro p _; exact ⟨by simp [tryParams], by intro _ _ _ _ h; simp [tryParams] at h⟩
+  | zero =>
+    intro p _
+    exact ⟨by simp [tryParams], (by intro _ _ _ _ h; simp [tryParams] at h), (by intro _ param h1 h2; omega)⟩
   | succ n ih =>
     intro p hp
     have hp' : p ≤ Extracted.colMaxCodeParam := by omega
@@ -177,7 +183,7 @@ theorem tryParams_spec (c : Cfg) (st : State) (items : List Item)
     cases r with
     | ok a =>
       simp only
-      refine ⟨by simp, ?_⟩
+      refine ⟨by simp, ?_, (by intro h; cases h)⟩
       intro param a' off' al' h
       simp only [Try.found.injEq] at h
       obtain ⟨rfl, rfl, rfl, rfl⟩ := h
@@ -186,13 +192,21 @@ theorem tryParams_spec (c : Cfg) (st : State) (items : List Item)
     | bad =>
       simp only
       by_cases hc : p + 1 > Extracted.colMaxCodeParam
-      · rw [if_pos hc]; exact ⟨by simp, by intro _ _ _ _ h; cases h⟩
+      · rw [if_pos hc]
+        refine ⟨by simp, (by intro _ _ _ _ h; cases h), ?_⟩
+        intro _ param h1 h2
+        have : param = p := by omega
+        subst this; rw [hfa]
       · rw [if_neg hc]
         have := ih (p + 1) (by omega)
-        refine ⟨this.1, ?_⟩
-        intro param a off al h
-        have := this.2 param a off al h
-        exact ⟨by omega, this.2⟩
+        refine ⟨this.1, ?_, ?_⟩
+        · intro param a off al h
+          have := this.2.1 param a off al h
+          exact ⟨by omega, this.2⟩
+        · intro hn param h1 h2
+          by_cases hpp : param = p
+          · subst hpp; rw [hfa]
+          · exact this.2.2 hn param (by omega) (by omega)
 
 theorem addColumns_eq_place (c : Cfg) (param : Nat) (a : Array Nat) (items : List Item) (off : Nat)
     (h : ∀ r ∈ place items off, Looks c param a r) : addColumns c param a items = place items off := by
@@ -263,19 +277,24 @@ def added (c : Cfg) (st : State) (items : List Item) (param : Nat) (a : Array Na
     mutCount := mutBytes (endOf items st.totalSize),
     mutBits := st.mutBits ++ ((items.filter (·.mutable)).map (fun it => getOffsetWith c param a it.code)) }
 
+/-- the retry loop stopped at `param` with addends `a` -/
+def FoundAt (c : Cfg) (st : State) (items : List Item) (param : Nat) (a : Array Nat) : Prop :=
+  st.codeParam ≤ param ∧ param ≤ Extracted.colMaxCodeParam ∧ (fillAddends c st items param).1 = .ok a
+
 /-- complete case analysis of `pvAdd` on a state that satisfies the invariant -/
 theorem add_spec (c : Cfg) (st : State) (items : List Item) (fault : Fault)
     (hinv : Inv c st) (hitems : ItemsOK items) (hL : Extracted.colLogVertexMin ≤ c.L)
     (hB : (c.N + 1) * endOf items st.totalSize < H) :
     (∃ param a, add c st items fault = (added c st items param a, .ok) ∧ fault = .none ∧
         items.length + st.columns.length ≤ c.maxColumns ∧
-        st.codeParam ≤ param ∧ Inv c (added c st items param a)) ∨
+        st.codeParam ≤ param ∧ Inv c (added c st items param a) ∧ FoundAt c st items param a) ∨
     (add c st items fault = (st, .tooMany) ∧ items.length + st.columns.length > c.maxColumns) ∨
-    (add c st items fault = (st, .cannot) ∧ items.length + st.columns.length ≤ c.maxColumns) ∨
+    (add c st items fault = (st, .cannot) ∧ items.length + st.columns.length ≤ c.maxColumns ∧
+        ∀ param, st.codeParam ≤ param → param ≤ Extracted.colMaxCodeParam → (fillAddends c st items param).1 = .bad) ∨
     (add c st items fault = (st, .badAlloc) ∧ fault = .reserve ∧
-        ((st.columns ++ place items st.totalSize).map (·.code)).Nodup) ∨
+        ((st.columns ++ place items st.totalSize).map (·.code)).Nodup ∧ ∃ param a, FoundAt c st items param a) ∨
     (add c st items fault = ({ st with mutCount := mutBytes (endOf items st.totalSize) }, .badAlloc) ∧ fault = .insert ∧
-        ((st.columns ++ place items st.totalSize).map (·.code)).Nodup) := by
+        ((st.columns ++ place items st.totalSize).map (·.code)).Nodup ∧ ∃ param a, FoundAt c st items param a) := by
   unfold add
   by_cases hmany : items.length + st.columns.length > c.maxColumns
   · rw [if_pos hmany]; exact Or.inr (Or.inl ⟨rfl, hmany⟩)
@@ -283,18 +302,22 @@ theorem add_spec (c : Cfg) (st : State) (items : List Item) (fault : Fault)
     have hts := tryParams_spec c st items hinv hitems hL hB
       (Extracted.colMaxCodeParam + 1 - st.codeParam) st.codeParam (by have := hinv.param_le; omega)
     cases htr : tryParams c st items (Extracted.colMaxCodeParam + 1 - st.codeParam) st.codeParam with
-    | none => exact Or.inr (Or.inr (Or.inl ⟨rfl, by omega⟩))
+    | none =>
+      refine Or.inr (Or.inr (Or.inl ⟨rfl, by omega, ?_⟩))
+      intro param h1 h2
+      exact hts.2.2 htr param h1 (by have := hinv.param_le; omega)
     | fuel => exact absurd htr hts.1
     | found param a off al =>
-      obtain ⟨hge, hle, hfa⟩ := hts.2 param a off al htr
+      obtain ⟨hge, hle, hfa⟩ := hts.2.1 param a off al htr
+      have hfound : FoundAt c st items param a := ⟨hge, hle, by rw [hfa]⟩
       obtain ⟨rfl, rfl, hsz, hlooks⟩ := (fillAddends_spec c st items param hinv hitems hL hle hB).2 a off al hfa
       have hnd := codes_nodup (hinv.lay.append (lay_place items _ hitems)) hlooks
       cases fault with
-      | reserve => exact Or.inr (Or.inr (Or.inr (Or.inl ⟨rfl, rfl, hnd⟩)))
-      | insert => exact Or.inr (Or.inr (Or.inr (Or.inr ⟨rfl, rfl, hnd⟩)))
+      | reserve => exact Or.inr (Or.inr (Or.inr (Or.inl ⟨rfl, rfl, hnd, param, a, hfound⟩)))
+      | insert => exact Or.inr (Or.inr (Or.inr (Or.inr ⟨rfl, rfl, hnd, param, a, hfound⟩)))
       | none =>
         left
-        refine ⟨param, a, ?_, rfl, by omega, hge, ?_⟩
+        refine ⟨param, a, ?_, rfl, by omega, hge, ?_, hfound⟩
         · simp only [added]
           rw [addColumns_eq_place c param a items st.totalSize (fun r hr => hlooks r (by simp [hr]))]
         · exact
@@ -308,7 +331,9 @@ theorem add_spec (c : Cfg) (st : State) (items : List Item) (fault : Fault)
                 rw [List.map_append, alignOf_append, ← hinv.align, place_items, alignOf_congr]
               funcs := by
                 simp only [added, List.length_append, place_length]
-                exact hinv.funcs.snoc }
+                exact hinv.funcs.snoc
+              count_le := by
+                simp only [added, List.length_append, place_length]; omega }
 
 
 theorem Inv.nodup {c : Cfg} {st : State} (h : Inv c st) : (st.columns.map (·.code)).Nodup :=
@@ -316,7 +341,7 @@ theorem Inv.nodup {c : Cfg} {st : State} (h : Inv c st) : (st.columns.map (·.co
 
 theorem Inv.mutCount {c : Cfg} {st : State} (h : Inv c st) (x : Nat) : Inv c { st with mutCount := x } :=
   { param_le := h.param_le, size := h.size, lay := h.lay, looks := h.looks, codes := h.codes,
-    align := h.align, funcs := h.funcs }
+    align := h.align, funcs := h.funcs, count_le := h.count_le }
 
 /-- **A column whose code is already present (or occurs twice in the call) is always refused.** -/
 theorem add_duplicate_refused (c : Cfg) (st : State) (items : List Item) (fault : Fault)
@@ -326,12 +351,12 @@ theorem add_duplicate_refused (c : Cfg) (st : State) (items : List Item) (fault 
     add c st items fault = (st, .tooMany) ∨ add c st items fault = (st, .cannot) := by
   have hnd : ¬ ((st.columns ++ place items st.totalSize).map (·.code)).Nodup := by
     rw [List.map_append, place_codes, ← hinv.codes]; exact hdup
-  rcases add_spec c st items fault hinv hitems hL hB with ⟨p, a, _, _, _, _, hi⟩ | h | h | h | h
+  rcases add_spec c st items fault hinv hitems hL hB with ⟨p, a, _, _, _, _, hi, _⟩ | h | h | h | h
   · exact absurd hi.nodup hnd
   · exact Or.inl h.1
   · exact Or.inr h.1
-  · exact absurd h.2.2 hnd
-  · exact absurd h.2.2 hnd
+  · exact absurd h.2.2.1 hnd
+  · exact absurd h.2.2.1 hnd
 
 /-! ## Histories -/
 
@@ -393,7 +418,7 @@ theorem runFrom_spec (c : Cfg) (hL : Extracted.colLogVertexMin ≤ c.L) :
       simp only [hne, if_false, List.nil_append]
       obtain ⟨h1, ⟨more, h2, h3⟩, h4⟩ := ih st1 hi1 hok' (by rw [ht1]; exact hB2)
       exact ⟨h1, ⟨more, by rw [h2, hc1], h3⟩, by omega⟩
-    rcases add_spec c st op.1 op.2 hinv hitems hL hB1 with ⟨p, a, he, _, _, _, hi⟩ | h | h | h | h
+    rcases add_spec c st op.1 op.2 hinv hitems hL hB1 with ⟨p, a, he, _, _, _, hi, _⟩ | h | h | h | h
     · rw [he]
       simp only [if_true]
       have hts : (added c st op.1 p a).totalSize = endOf op.1 st.totalSize := rfl
@@ -417,6 +442,18 @@ theorem runFrom_append (c : Cfg) (st : State) (ops more : List (List Item × Fau
 theorem histWeight_append (ops more : List (List Item × Fault)) :
     histWeight (ops ++ more) = histWeight ops + histWeight more := by
   simp [histWeight]
+
+/-- every item type has positive size and alignment (`sizeof ≥ 1`; `ObjectAlignmenter::Check`) -/
+abbrev WellTyped (ops : List (List Item × Fault)) : Prop := OpsOK ops
+
+/-- all bytes requested by the history (padding included) stay far below `2^63` -/
+def Small (c : Cfg) (ops : List (List Item × Fault)) : Prop :=
+  (c.N + 1) * (c.rowSlot + histWeight ops) < H
+
+/-- the reachable states satisfy the invariant (used by all theorems below) -/
+theorem run_inv (c : Cfg) (hL : Extracted.colLogVertexMin ≤ c.L) (ops : List (List Item × Fault))
+    (hok : WellTyped ops) (hs : Small c ops) : Inv c (run c ops) :=
+  (runFrom_spec c hL ops (init c) (init_inv c) hok hs).1
 
 /-! ## Lookups and membership -/
 
